@@ -19,6 +19,7 @@ EXPLANATION = (
 EXPLANATION_ADDED = 'R1 also orders the source dispatch before the drain; R2 requires the flush loop to await recv() until the closed queue is empty; (R6) no await on a bounded application queue is reachable in the wind-down; (R7) the send-loop select arm never holds a dequeued message across an await (cancel safety).'
 EXPLANATION_ADDED2 = ' (R8) ack-failure-stops-handoff (why the accept queue cannot hold up the wind-down); (R9) Close/Ping/Pong/Binary classification, dispatcher call-site constants, the wind-down dispatches what it takes from the source; R1 also requires the dropped-flows queue to be closed. (R10) a write refused because the stream is closed maps to Err(BrokenPipe) in every io-level write entry point (poll_write, poll_write_vectored, the bridge), never to Ok(n).'
 EXPLANATION = EXPLANATION + " Added while testing against seeded changes: " + EXPLANATION_ADDED + EXPLANATION_ADDED2
+EXPLANATION = EXPLANATION + " Round 10: R5 also requires the converted error to be propagated; (R11) outside the wind-down every error of the WebSocket sink / source is propagated with `?` up to the future polled by the task's select."
 ASSUMPTIONS = ["poll_fn closures are polled by the await that follows their creation",
                "tokio mpsc close()/recv() semantics (clean shutdown) as documented"]
 NOT_DECIDED = "completion of operations racing with teardown; enumeration of cut points; timing"
@@ -418,6 +419,8 @@ def check(facts, rep, tier, cfg):
     # ---- a write on a stream that is closed for writing fails with BrokenPipe in every entry point
     rep.rule("C08.R10", "every io-level write entry point maps the refusal of the credit take (None: closed for writing) to Err(BrokenPipe), never to Ok(n)")
     check_refusal_is_broken_pipe(facts, rep, crate, "C08.R10")
+    rep.rule("C08.R11", "outside the wind-down every error of the WebSocket sink / source is propagated with `?` (the loop ends and the task winds down)")
+    check_transport_errors_end_loops(facts, rep, crate)
 
 
 def source_dispatch_before_eof(effs):
@@ -486,6 +489,96 @@ def closed_mapping_sites(facts, crate):
                     if any(x.kind == "call" and x[4] == bi for x in walk(t2.operand(tt["args"][0]))):
                         an = t2.operand(tt["args"][1]) if len(tt["args"]) > 1 else None
                         if an is not None and any(x.kind == "agg" and x[2].endswith("Error::Closed") for x in walk(an)):
-                            mapped = True
+                            # ... and the converted result must be propagated (`?`) or be the method's result, not discarded
+                            used = any(callee(t3) and callee(t3)["name"] == "branch" and t3["args"] and
+                                       any(x.kind == "call" and x[4] == bj for x in walk(t2.operand(t3["args"][0]))) for _b3, t3 in b.calls())
+                            used = used or any(x.kind == "call" and x[4] == bj for x in walk(t2.local(0)))
+                            mapped = used
             out.append((root, b, t, mapped))
     return out
+
+
+def check_transport_errors_end_loops(facts, rep, crate, rid="C08.R11"):
+    """Outside the wind-down, an error of the WebSocket sink / source (poll_ready, start_send, poll_flush, poll_next) is propagated with `?`
+    up to the future that the task's select polls (so the send / receive loop ends and the task tears the connection down); it is never
+    discarded on the way."""
+    from an import Tracer, callee, strip
+    from mir import loc_str
+    WS = ("poll_ready_unpin", "start_send_unpin", "poll_flush_unpin", "poll_next_unpin", "poll_ready", "start_send", "poll_flush", "poll_next")
+    PASS = {"poll", "into_future", "poll_fn", "new_unchecked", "new", "as_mut", "get_mut", "deref_mut", "deref", "pin", "from", "into", "map_err",
+            "or", "ok_or", "branch", "from_output", "from_residual"}
+
+    def carried(node, pred, seen=None):
+        """`node` is the value `pred` identifies, seen only through projections, wrappers and the await machinery (not as an argument of
+        some other computation whose own result is then inspected)."""
+        seen = seen if seen is not None else set()
+        if id(node) in seen:
+            return False
+        seen.add(id(node))
+        if pred(node):
+            return True
+        k = node.kind
+        if k == "phi":
+            return any(carried(x, pred, seen) for x in node[1])
+        if k in ("ref", "deref", "cast", "downcast", "field", "cindex"):
+            return carried(node[1], pred, seen)
+        if k == "call" and node[6] in PASS:
+            return any(carried(a, pred, seen) for a in node[3])
+        if k == "agg":
+            return any(carried(v, pred, seen) for _f, v in node[3])
+        return False
+
+    def propagated(b, tr, pred):
+        """(feeds a `?`, is the body's own result)"""
+        q = any(callee(t3) and callee(t3)["name"] == "branch" and t3["args"] and carried(tr.operand(t3["args"][0]), pred) for _b3, t3 in b.calls())
+        return q, carried(tr.local(0), pred)
+
+    k = 0
+    tracers = {}
+    work = []       # (body, predicate describing the error-carrying value in that body, description, origin site)
+    for b in crate.bodies:
+        if "task::" not in b.path or "wind_down" in b.path:
+            continue
+        for bi, t in b.calls():
+            c = callee(t)
+            if c and c["name"] in WS and "WebSocket" in (c.get("trait") or "") + c["path"] + c["def"]:
+                work.append((b, (lambda x, bi=bi, nm=c["name"]: x.kind == "call" and x[4] == bi and x[6] == nm), c["name"], (b, t)))
+    done = set()
+    while work:
+        b, pred, what, (ob, ot) = work.pop()
+        tr = tracers.setdefault(b.dp, Tracer(facts, b))
+        q, ret = propagated(b, tr, pred)
+        where = "%s (%s)" % (loc_str(ot["loc"]), ob.path)
+        key = "transport-error-propagates/%s/%s" % (ob.path.split("::{")[0], what)
+        if not q and not ret:
+            k += 1
+            rep.bad(rid, key, "%s (%s)" % (loc_str(b.loc), b.path),
+                    "an error of the WebSocket %s (raised at %s) is discarded in %s: the loop keeps running on a dead transport, the task never "
+                    "reaches the wind-down and pending / later operations never fail with an error" % (
+                        "source" if "next" in what else "sink", loc_str(ot["loc"]), b.path.split("::{")[0]))
+            continue
+        # the error leaves this body as its result (directly or through `?`): follow it to whoever consumes that result
+        root_is_select = any(callee(t4) and "select" in callee(t4)["path"] for _b4, t4 in b.calls()) or b.path.split("::{")[0].endswith("::start")
+        users = []
+        par = facts.by_dp.get(b.parent) if b.kind in ("Closure", "Coroutine") or "{closure" in b.path.split("::")[-1] else None
+        if par is not None:
+            users.append((par, (lambda x, d=b.dp: (x.kind == "agg" and x[1] in ("closure", "coroutine") and x[2] == d) or (x.kind == "closureconst" and x[1] == d))))
+        for b2 in crate.bodies:
+            for bj, t2 in b2.calls():
+                c2 = callee(t2)
+                if c2 and (c2.get("res") or c2["dp"]) == b.dp and b2 is not b:
+                    users.append((b2, (lambda x, bj=bj: x.kind == "call" and x[4] == bj)))
+        if (b.dp, what) in done:
+            continue
+        done.add((b.dp, what))
+        if root_is_select or not users:
+            k += 1
+            rep.ok(rid, key, where, "Err propagated with `?` up to %s" % b.path.split("::{")[0])
+            continue
+        for ub, up in users:
+            if "wind_down" in ub.path or ub.path.split("::{")[0].endswith("::start"):
+                k += 1
+                rep.ok(rid, key, where, "Err propagated with `?` up to the task's select")
+                continue
+            work.append((ub, up, what, (ob, ot)))
+    rep.floor(rid, "transport operations outside the wind-down", k, 4)
